@@ -301,6 +301,26 @@ mut("c14_create_unit_twice_on_user_to_user", "C14", "include/abti_unit.h",
         p_thread->unit = new_unit;""",
     """        ABTI_unit_unmap_thread(p_global, unit);
         p_thread->unit = new_unit;""", "moving between two user pools leaks the old unit (free_unit not called)")
+mut("c15_revert_unrounded_free", "C15", "include/abti_mem.h",
+    """        void *p_stack = (void *)(((char *)p_stacktop) - alloc_stacksize);
+        ABTU_free(p_stack);""",
+    """        void *p_stack = (void *)(((char *)p_stacktop) - stacksize);
+        (void)alloc_stacksize;
+        ABTU_free(p_stack);""", "reverts fix 60c5bce: malloc'ed stacks are freed from p_stacktop - stacksize")
+mut("c15_lifo_tag_not_incremented", "C15", "include/abti_sync_lifo.h",
+    """                                                             p_next,
+                                                             cur_tag + 1))) {
+            return p_cur_top;""",
+    """                                                             p_next,
+                                                             cur_tag))) {
+            return p_cur_top;""", "lock-free LIFO pop does not advance the tag (ABA)",
+    extra=[("include/abti_sync_lifo.h", """                                                             p_elem,
+                                                             cur_tag + 1))) {
+            return;""", """                                                             p_elem,
+                                                             cur_tag))) {
+            return;""")])
+mut("c15_bucket_returned_and_kept", "C15", "include/abti_mem_pool.h",
+    None, None, "placeholder")
 mut("c01_fifo_no_second_empty_check", "C01", "pool/thread_queue.h",
     None, None, "placeholder")
 mut("c03_join_no_final_wait", "C03", "thread.c",
